@@ -110,7 +110,12 @@ func H_C15_keys(t *verifrt.T) {
 		mapPath = false
 	case 2:
 		var v vkC
-		err = Unmarshal(doc, &v)
+		if t.Choice("route", 2) == 1 {
+			// the stream-mode key decoders
+			err = NewDecoder(bytes.NewReader(doc)).Decode(&v)
+		} else {
+			err = Unmarshal(doc, &v)
+		}
 		got = []int{v.F0, v.F1, v.F2, v.F3, v.F4, v.F5, v.F6, v.F7, v.F8}
 		names = vkCNames
 		mapPath = false
@@ -382,6 +387,17 @@ func H_C12_stream_alias(t *verifrt.T) {
 func H_C05_unmarshal_iface(t *verifrt.T) {
 	n := t.Param("N")
 	doc := t.Bytes("doc", n)
+	switch t.ParamOr("ALPHA", 0) {
+	case 1:
+		// structural alphabet: longer texts stay tractable
+		for i := range doc {
+			c := doc[i]
+			t.Assume(verifrt.Or(c == '[', c == ']', c == '{', c == '}', c == '"', c == ',', c == ':', c == '1', c == ' ', c == '\\'))
+		}
+	case 2:
+		// texts that start with "\u : reaches the \uXXXX scanners
+		t.Assume(verifrt.And(n >= 3, doc[0] == '"', doc[1] == '\\', doc[2] == 'u'))
+	}
 	orig := make([]byte, n)
 	copy(orig, doc)
 	var v interface{}
